@@ -31,6 +31,7 @@ type Prog struct {
 	byPath  map[string]*packages.Package
 	cg      *callgraph.Graph
 	allFns  map[*ssa.Function]bool
+	locks   *LockAnalysis
 }
 
 // Load type-checks ./... of repo for the given GOOS/GOARCH, with an optional
